@@ -36,7 +36,8 @@ var initials = map[string]string{
 		"0 @I2@ INDI\n1 NAME Bob /Birch/\n1 SEX M\n1 BIRT\n2 DATE 2 Feb 1848\n1 FAMS @F1@\n" +
 		"0 @I3@ INDI\n1 NAME Cy /Birch/\n1 BIRT\n2 DATE 3 Mar 1875\n1 FAMC @F1@\n" +
 		"0 @F1@ FAM\n1 HUSB @I2@\n1 WIFE @I1@\n1 CHIL @I3@\n",
-	"shared-spouse": "0 @I1@ INDI\n1 NAME Ann /Ash/\n1 BIRT\n2 DATE 1 Jan 1850\n1 FAMS @F1@\n" +
+	// Bob's first spouse is living (born recently, no death), his second is not
+	"shared-spouse": "0 @I1@ INDI\n1 NAME Ann /Ash/\n1 BIRT\n2 DATE 1 Jan 1995\n1 FAMS @F1@\n" +
 		"0 @I2@ INDI\n1 NAME Bob /Birch/\n1 BIRT\n2 DATE 2 Feb 1848\n1 FAMS @F1@\n1 FAMS @F2@\n" +
 		"0 @I3@ INDI\n1 NAME Di /Dale/\n1 BIRT\n2 DATE 3 Mar 1855\n1 FAMS @F2@\n" +
 		"0 @F1@ FAM\n1 HUSB @I2@\n1 WIFE @I1@\n" +
@@ -246,6 +247,32 @@ func ops() []operation {
 		i.SetNodes(append(gedcom.Nodes{}, i.Nodes()[1:]...))
 		return true
 	})
+	add("I1.SetNodes(new)", "edit", func(d *gedcom.Document) bool {
+		i := indiOf(d, "I1")
+		if i == nil {
+			return false
+		}
+		b := gedcom.NewNode(gedcom.TagBirth, "", "")
+		b.AddNode(gedcom.NewDateNode("1 Jan 1900"))
+		i.SetNodes(gedcom.Nodes{gedcom.NewNameNode("Newly /Set/"), b})
+		return true
+	})
+	add("AddIndividual(I1) again", "edit", func(d *gedcom.Document) bool {
+		if root(d, "I1") == nil {
+			return false
+		}
+		n := 0
+		for _, r := range d.Nodes() {
+			if r.Pointer() == "I1" {
+				n++
+			}
+		}
+		if n > 1 {
+			return false
+		}
+		d.AddIndividual("I1", gedcom.NewNameNode("Second /Record/"))
+		return true
+	})
 	add("F1.SetNodes(nil)", "edit", func(d *gedcom.Document) bool {
 		if famOf(d, "F1") == nil || len(famOf(d, "F1").Nodes()) == 0 {
 			return false
@@ -321,8 +348,18 @@ func ops() []operation {
 		return true
 	})
 	add("Publish", "read", func(d *gedcom.Document) bool {
-		opts := &html.PublishShowOptions{ShowIndividuals: true, ShowPlaces: true, ShowFamilies: true, ShowSurnames: true, ShowSources: true, ShowStatistics: true, LivingVisibility: html.LivingVisibilityShow}
-		html.NewPublisher(d, opts).Publish(&memWriter{}, 1)
+		// hide and placeholder differ from show only when somebody is living
+		viss := []html.LivingVisibility{html.LivingVisibilityShow}
+		for _, i := range d.Individuals() {
+			if i.IsLiving() {
+				viss = append(viss, html.LivingVisibilityHide, html.LivingVisibilityPlaceholder)
+				break
+			}
+		}
+		for _, vis := range viss {
+			opts := &html.PublishShowOptions{ShowIndividuals: true, ShowPlaces: true, ShowFamilies: true, ShowSurnames: true, ShowSources: true, ShowStatistics: true, LivingVisibility: vis}
+			html.NewPublisher(d, opts).Publish(&memWriter{}, 1)
+		}
 		return true
 	})
 	// queries only read; grouped so that the operation alphabet stays small
@@ -524,6 +561,13 @@ type result struct {
 	stateKey string
 }
 
+type refEntry struct {
+	views map[string]string
+	doc   *gedcom.Document
+}
+
+var refCache = map[string]refEntry{}
+
 func runHistory(initial string, hist []int, all []operation) (res result) {
 	doc, err := gedcom.NewDocumentFromString(initials[initial])
 	if err != nil {
@@ -557,14 +601,26 @@ func runHistory(initial string, hist []int, all []operation) (res result) {
 		}
 	}
 	res.applied = true
+	// the live views are taken BEFORE anything else is decoded: decoding adds nodes, and adding a node
+	// drops the process-wide NodesWithTag cache, which would hide a stale entry of the live document
+	live := views(doc)
 	text := doc.String()
 	res.stateKey = text
-	fresh, derr := gedcom.NewDocumentFromString(text)
-	if derr != nil {
-		add("text-does-not-decode", fmt.Sprintf("history %v: the document's text does not decode: %v\n%s", names, derr, text))
-		return
+	// the views of a fresh decode are a function of the text alone: computed once per text and worker
+	ent, hit := refCache[text]
+	if !hit {
+		fresh, derr := gedcom.NewDocumentFromString(text)
+		if derr != nil {
+			add("text-does-not-decode", fmt.Sprintf("history %v: the document's text does not decode: %v\n%s", names, derr, text))
+			return
+		}
+		ent = refEntry{views(fresh), fresh}
+		if len(refCache) > 30000 {
+			refCache = map[string]refEntry{}
+		}
+		refCache[text] = ent
 	}
-	live, ref := views(doc), views(fresh)
+	ref, fresh := ent.views, ent.doc
 	last := "initial"
 	if len(hist) > 0 {
 		last = all[hist[len(hist)-1]].Name
